@@ -25,6 +25,7 @@ func prob(class, format string, args ...interface{}) *Problem {
 
 // Leaf is a column of the footer's schema tree.
 type Leaf struct {
+	Elems  []string // path elements (a name may itself contain a dot); compared element-wise when set
 	Path   string
 	Type   int64 // physical type
 	MaxDef int
@@ -143,7 +144,16 @@ func Parse(data []byte, leaves []Leaf) (*File, *Problem) {
 			}
 			ch := Chunk{Path: strings.Join(parts, "."), Codec: cm.Int(4, -1), NumValues: cm.Int(5, -1), Off: cm.Int(9, -1), Size: cm.Int(7, -1)}
 			leaf := leaves[ci]
-			if ch.Path != leaf.Path {
+			samePath := ch.Path == leaf.Path
+			if leaf.Elems != nil {
+				samePath = len(parts) == len(leaf.Elems)
+				for i := range leaf.Elems {
+					if samePath && parts[i] != leaf.Elems[i] {
+						samePath = false
+					}
+				}
+			}
+			if !samePath {
 				return nil, prob("columns", "row group %d column %d is %q, schema order says %q", gi, ci, ch.Path, leaf.Path)
 			}
 			if cm.Int(1, -1) != leaf.Type {
